@@ -487,7 +487,7 @@ func (d *driver) explore(from int, noEvidence, noMin bool) int {
 	nviol := 0
 	knownSeen := map[string]bool{}
 	var violationLines []string
-	minBudget := 6
+	minBudget := 3
 	for _, k := range order {
 		g := groups[k]
 		if kf := matchKnown(known, &g.v); kf != nil {
@@ -635,9 +635,12 @@ func hasKey(r *sim.RunResult, key string) *sim.Violation {
 }
 
 func (d *driver) confirm(path string, v *sim.Violation) (bool, string) {
+	// schedules of library-internal goroutines and map iteration order are
+	// not seeded: violations that come through them (C07 nondeterministic
+	// output, C12 race reports) replay statistically
 	attempts := 1
-	if d.prop == "C12" {
-		attempts = 5
+	if d.prop == "C12" || d.prop == "C07" {
+		attempts = 6
 	}
 	why := ""
 	for i := 0; i < attempts; i++ {
@@ -670,8 +673,8 @@ func (d *driver) replay(path string) int {
 		return 2
 	}
 	attempts := 1
-	if d.prop == "C12" {
-		attempts = 5
+	if d.prop == "C12" || d.prop == "C07" {
+		attempts = 6
 	}
 	for i := 0; i < attempts; i++ {
 		r, err := d.runScenarioFile(path, "replay")
